@@ -16,9 +16,9 @@ var collDuring = vkit.NewCollector("C16", "TestReplayWhileWriting", "a registry 
 
 func TestMain(m *testing.M) { vkit.Main(m) }
 
-func TestSequences(t *testing.T)       { vkit.Check(t, collSeq, Gen, Run) }
+func TestSequences(t *testing.T)          { vkit.Check(t, collSeq, Gen, Run) }
 func TestReplayWhileWriting(t *testing.T) { vkit.Check(t, collDuring, GenDuring, RunDuring) }
-func TestConcurrentPairs(t *testing.T) { vkit.Check(t, collPair, GenPair, RunPair) }
+func TestConcurrentPairs(t *testing.T)    { vkit.Check(t, collPair, GenPair, RunPair) }
 
 func TestEnumSmall(t *testing.T) {
 	maxLen := 3
